@@ -224,6 +224,23 @@ def run(tier, pid="C01"):
             c_ok += 1
             sigs_ok.add(u.tags + ("lift:module-chain",))
     lift_stats["module-chain"] = {"lifted": len(chain), "matched_reference": c_ok}
+    # ---- the entry file and an imported module declare an item of the SAME name with different content: names are
+    #      module-scoped, each file must see its own declaration (expected output by construction)
+    clash_ok = 0
+    cj = clash_programs()
+    clres = pipe.run_many([(k, f) for k, (name, f, want) in enumerate(cj)])
+    for k, (name, f, want) in enumerate(cj):
+        r = clres[k]
+        if r.stage != "run":
+            not_built_lifts[f"clash:{name}"] = f"{r.stage}: {r.detail}"
+            continue
+        got = r.stdout.strip("\n").split("\n")
+        if r.exit != 0 or got != want:
+            out.fail(f"clash:{name}", {"unit": name, "files": f, "incan": f["prog.incn"], "printed": got, "expected": want, "exit": r.exit, "why": "an item declared in the entry file and, differently, in an imported module: each file must use its own"})
+        else:
+            clash_ok += 1
+            sigs_ok.add(("clash", name))
+    lift_stats["same-name-in-two-modules"] = {"programs": len(cj), "matched_expected": clash_ok}
     # units the checker accepted but that do not build are C02's subject; they are outside what C01 can observe
     cov = {
         "evaluations": len(accepted),
@@ -234,7 +251,7 @@ def run(tier, pid="C01"):
         "form, enums with data, models/classes/inheritance/traits/newtypes/closures/consts/defaults/named args, the five documented runtime errors, and every sequence of <= 2 "
         "statements from a 44-statement grammar over two mutable ints (assignments, compound assignments, if/elif/else, for with break/continue, while, match, and/or; quick: all "
         "singles and 44 x 6 pairs, thorough: all 44 x 44 pairs) on 4 argument pairs; each unit is compiled by the "
-        "real CLI and compared with CPython on the transliterated text; every matched single-function unit (quick: a third of them) is compiled again as a method of a class and as a pub function of an imported module (multi-file project) and must print the same; every other matched unit (models, classes, enums, traits, newtypes, consts) is compiled again with all its declarations in an imported module; non-trivial = distinct tag signatures among units that built, ran and matched",
+        "real CLI and compared with CPython on the transliterated text; every matched single-function unit (quick: a third of them) is compiled again as a method of a class and as a pub function of an imported module (multi-file project) and must print the same; every other matched unit (models, classes, enums, traits, newtypes, consts) is compiled again with all its declarations in an imported module; 11 two-file programs in which the entry file and the imported module declare a same-named model / class (field defaults), const, function (parameter order) or enum (variants) differently; non-trivial = distinct tag signatures among units that built, ran and matched",
         "samples": [{"unit": u.name, "decls": u.decls, "driver": u.driver} for u in common.pick_samples(accepted)],
         "exhaustive": True,
         "units": len(units),
@@ -257,10 +274,43 @@ def run(tier, pid="C01"):
     )
 
 
+def clash_programs():
+    """(name, files, expected output lines)"""
+    out = []
+    for kind in ("model", "class"):
+        for vis in ("pub ", ""):
+            lib = f"{vis}{kind} Cfg:\n    size: int = 3\n    tag: str = \"lib\"\n\n\npub def lib_size() -> int:\n    c = Cfg(tag=\"x\")\n    return c.size\n\n\npub def lib_tag() -> str:\n    c = Cfg(size=1)\n    return c.tag\n"
+            main = (f"from clashlib import lib_size, lib_tag\n\n\n{kind} Cfg:\n    size: int = 7\n    tag: str = \"app\"\n\n\ndef main() -> None:\n    a = Cfg(tag=\"custom\")\n    println(a.size)\n    println(a.tag)\n"
+                    "    b = Cfg(size=9)\n    println(b.size)\n    println(b.tag)\n    println(lib_size())\n    println(lib_tag())\n")
+            out.append((f"{kind}-field-defaults|lib:{'pub' if vis else 'private'}", {"clashlib.incn": lib, "prog.incn": main}, ["7", "custom", "9", "app", "3", "lib"]))
+    # the same, declared in the other order in the entry file (use before declaration) and with the import last
+    lib = "pub model Cfg:\n    size: int = 3\n\n\npub def lib_size() -> int:\n    c = Cfg()\n    return c.size\n"
+    main = "def main() -> None:\n    a = Cfg()\n    println(a.size)\n    println(lib_size())\n\n\nmodel Cfg:\n    size: int = 7\n\n\nfrom clashlib import lib_size\n"
+    out.append(("model-all-defaults|declared-after-use", {"clashlib.incn": lib, "prog.incn": main}, ["7", "3"]))
+    for vis in ("pub ", ""):
+        lib = f"{vis}const LIMIT: int = 3\n\n\npub def lib_limit() -> int:\n    return LIMIT + 0\n"
+        main = "from clashlib import lib_limit\n\n\nconst LIMIT: int = 7\n\n\ndef main() -> None:\n    println(LIMIT)\n    println(lib_limit())\n"
+        out.append((f"const|lib:{'pub' if vis else 'private'}", {"clashlib.incn": lib, "prog.incn": main}, ["7", "3"]))
+        lib = f"{vis}def helper(b: int, a: int) -> int:\n    return a * 100 + b\n\n\npub def lib_calc() -> int:\n    return helper(b=1, a=2)\n"
+        main = "from clashlib import lib_calc\n\n\ndef helper(a: int, b: int) -> int:\n    return a - b\n\n\ndef main() -> None:\n    println(helper(b=1, a=5))\n    println(helper(5, 1))\n    println(lib_calc())\n"
+        out.append((f"function-parameter-order|lib:{'pub' if vis else 'private'}", {"clashlib.incn": lib, "prog.incn": main}, ["4", "4", "201"]))
+        lib = f"{vis}enum Mode:\n    Slow\n    Fast\n\n\npub def lib_mode() -> int:\n    m = Mode.Fast\n    match m:\n        case Mode.Slow:\n            return 30\n        case Mode.Fast:\n            return 31\n"
+        main = "from clashlib import lib_mode\n\n\nenum Mode:\n    Fast\n    Slow\n    Off\n\n\ndef main() -> None:\n    m = Mode.Fast\n    match m:\n        case Mode.Fast:\n            println(70)\n        case Mode.Slow:\n            println(71)\n        case Mode.Off:\n            println(72)\n    println(lib_mode())\n"
+        out.append((f"enum-variants|lib:{'pub' if vis else 'private'}", {"clashlib.incn": lib, "prog.incn": main}, ["70", "31"]))
+    return out
+
+
 def replay(path):
     common.build(need_cli=True)
     rec = json.load(open(path, encoding="utf-8"))
     c = rec["case"]
+    if "files" in c and "expected" in c:
+        r = pipe.run_program(0, c["files"])
+        got = r.stdout.strip("\n").split("\n")
+        for k, v in c["files"].items():
+            print(f"# --- {k}\n{v}")
+        print("compiled program: stage", r.stage, "exit", r.exit, "printed", got, "expected", c["expected"])
+        return 0 if (r.stage == "run" and r.exit == 0 and got == c["expected"]) else 1
     r = pipe.run_program(0, {"prog.incn": c["incan"]})
     rc, so, se = sem.run_python(c["reference_python"])
     print("compiled program: stage", r.stage, "exit", r.exit)
